@@ -10,7 +10,7 @@ Proof. apply String.eqb_sym. Qed.
 
 Ltac seq :=
   repeat match goal with
-  | H : (?a =s ?b) = true |- _ => apply String.eqb_eq in H; subst
+  | H : (?a =s ?b) = true |- _ => apply String.eqb_eq in H; first [subst a | subst b | idtac]
   | H : (?a =s ?b) = false |- _ => apply String.eqb_neq in H
   end.
 
@@ -97,6 +97,11 @@ Proof.
   exfalso. apply H2. change k0 with (fst (k0, v)). apply in_map, Hin.
 Qed.
 
+Arguments aset {A} k v m : simpl never.
+Arguments adel {A} k m : simpl never.
+
+Ltac sn_simpl := cbn [update_for_pod cleanup_for_pod sn_pods sn_dsr sn_costs sn_vun sn_node sn_claim sn_marked fst snd].
+
 (* ================= well-formed API stores ================= *)
 Definition keyed {A} (key : A -> string) (m : amap A) : Prop :=
   nodupk m /\ forall k v, In (k, v) m -> key v = k.
@@ -176,12 +181,12 @@ Lemma pop_pods name l : keyed p_key l -> forall s key,
 Proof.
   induction l as [|[k p] l IH]; intros Hk s key; simpl; [reflexivity|].
   destruct (keyed_cons_inv _ _ _ _ Hk) as (Hkey & Hnone & Hk').
-  rewrite (IH Hk'), lookup_on_cons. unfold pop_sn; simpl.
+  rewrite (IH Hk'), lookup_on_cons. unfold pop_sn; sn_simpl.
   destruct (key =s k) eqn:E; seq.
   - rewrite (lookup_on_none _ _ _ Hnone).
-    destruct (on_node name p); simpl; [rewrite Hkey, aget_aset_same|]; reflexivity.
+    destruct (on_node name p); sn_simpl; [rewrite Hkey, aget_aset_same|]; reflexivity.
   - destruct (lookup_on name key l); [reflexivity|].
-    destruct (on_node name p); simpl; [rewrite Hkey, aget_aset_other by assumption|]; reflexivity.
+    destruct (on_node name p); sn_simpl; [rewrite Hkey, aget_aset_other by assumption|]; reflexivity.
 Qed.
 
 Lemma pop_dsr name l : keyed p_key l -> forall s key,
@@ -193,13 +198,13 @@ Lemma pop_dsr name l : keyed p_key l -> forall s key,
 Proof.
   induction l as [|[k p] l IH]; intros Hk s key; simpl; [reflexivity|].
   destruct (keyed_cons_inv _ _ _ _ Hk) as (Hkey & Hnone & Hk').
-  rewrite (IH Hk'), lookup_on_cons. unfold pop_sn; simpl.
+  rewrite (IH Hk'), lookup_on_cons. unfold pop_sn; sn_simpl.
   destruct (key =s k) eqn:E; seq.
   - rewrite (lookup_on_none _ _ _ Hnone).
-    destruct (on_node name p); simpl; [|reflexivity].
+    destruct (on_node name p); sn_simpl; [|reflexivity].
     destruct (p_ds p); [rewrite Hkey, aget_aset_same|]; reflexivity.
   - assert (Hs : aget key (sn_dsr (if on_node name p then update_for_pod s p else s)) = aget key (sn_dsr s)).
-    { destruct (on_node name p); simpl; [|reflexivity].
+    { destruct (on_node name p); sn_simpl; [|reflexivity].
       destruct (p_ds p); [rewrite Hkey, aget_aset_other by assumption|]; reflexivity. }
     rewrite Hs. reflexivity.
 Qed.
@@ -213,14 +218,14 @@ Lemma pop_costs name l : keyed p_key l -> forall s key,
 Proof.
   induction l as [|[k p] l IH]; intros Hk s key; simpl; [reflexivity|].
   destruct (keyed_cons_inv _ _ _ _ Hk) as (Hkey & Hnone & Hk').
-  rewrite (IH Hk'), lookup_on_cons. unfold pop_sn; simpl.
+  rewrite (IH Hk'), lookup_on_cons. unfold pop_sn; sn_simpl.
   destruct (key =s k) eqn:E; seq.
   - rewrite (lookup_on_none _ _ _ Hnone).
-    destruct (on_node name p); simpl; [|reflexivity].
+    destruct (on_node name p); sn_simpl; [|reflexivity].
     destruct (p_ds p); [reflexivity|].
     destruct (0 <? p_cost p); [rewrite Hkey, aget_aset_same|rewrite Hkey, aget_adel_same]; reflexivity.
   - assert (Hs : aget key (sn_costs (if on_node name p then update_for_pod s p else s)) = aget key (sn_costs s)).
-    { destruct (on_node name p); simpl; [|reflexivity].
+    { destruct (on_node name p); sn_simpl; [|reflexivity].
       destruct (p_ds p); [reflexivity|].
       destruct (0 <? p_cost p); [rewrite Hkey, aget_aset_other by assumption|rewrite Hkey, aget_adel_other by assumption]; reflexivity. }
     rewrite Hs. reflexivity.
@@ -247,4 +252,133 @@ Proof.
   revert s. induction l as [|kp l IH]; intros s; simpl; [auto|].
   destruct (IH (pop_sn name s kp)) as (H1 & H2 & H3). rewrite H1, H2, H3.
   unfold pop_sn. destruct (on_node name (snd kp)); simpl; auto.
+Qed.
+
+(* ================= nodePoolResources = sum over the cached nodes ================= *)
+Ltac res_crush :=
+  repeat match goal with
+  | r : res |- _ => destruct r as [[? ?] ?]
+  end; unfold radd, rsub, z3 in *; simpl in *; try reflexivity; try (apply f_equal2; [apply f_equal2|]; lia).
+
+Lemma radd_z3_l r : radd z3 r = r. Proof. res_crush. Qed.
+Lemma radd_z3_r r : radd r z3 = r. Proof. res_crush. Qed.
+Lemma rsub_z3 r : rsub r z3 = r. Proof. res_crush. Qed.
+
+Lemma rzero_true r : rzero r = true -> r = z3.
+Proof.
+  destruct r as [[a b] c]; simpl. rewrite !andb_true_iff, !Z.eqb_eq. intros [[-> ->] ->]. reflexivity.
+Qed.
+
+Lemma rget_aset k k' v m : rget k' (aset k v m) = if k' =s k then v else rget k' m.
+Proof. unfold rget. rewrite aget_aset. destruct (k' =s k); reflexivity. Qed.
+
+Lemma rget_gc k k' m : rget k' (gc_pool k m) = rget k' m.
+Proof.
+  unfold gc_pool. destruct (aget k m) as [v|] eqn:E; [|reflexivity].
+  destruct (rzero v) eqn:Z; [|reflexivity].
+  unfold rget. rewrite aget_adel. destruct (k' =s k) eqn:E2; [|reflexivity].
+  seq. rewrite E. symmetry. apply rzero_true, Z.
+Qed.
+
+Definition ocontrib (pool : string) (o : option snode) : res :=
+  match o with Some s => contrib pool s | None => z3 end.
+
+Lemma upr_spec old new m pool : pool <> "" ->
+  rget pool (upr old new m) = radd (rsub (rget pool m) (ocontrib pool old)) (ocontrib pool new).
+Proof.
+  intros Hp. unfold upr.
+  assert (Ho : forall o, let '(p, r) := pool_res o in ocontrib pool o = if p =s pool then r else z3).
+  { intros [s|]; cbn [pool_res ocontrib]; [|destruct ("" =s pool); reflexivity].
+    unfold contrib. destruct (has_identity s); cbn [andb]; [reflexivity|].
+    destruct ("" =s pool); reflexivity. }
+  pose proof (Ho old) as H1. pose proof (Ho new) as H2.
+  destruct (pool_res old) as [op ores]. destruct (pool_res new) as [np nres].
+  rewrite H1, H2. clear H1 H2 Ho.
+  rewrite !rget_gc.
+  set (m1 := if negb (np =s "") && match aget np m with None => true | Some _ => false end then aset np z3 m else m).
+  assert (E1 : rget pool m1 = rget pool m).
+  { unfold m1. destruct (negb (np =s "") && _) eqn:C; [|reflexivity].
+    rewrite rget_aset. destruct (pool =s np) eqn:E; [|reflexivity]. seq.
+    apply andb_true_iff in C. destruct C as [_ C]. unfold rget.
+    destruct (aget np m); [discriminate|reflexivity]. }
+  set (m2 := if negb (op =s "") && negb (rzero ores) then aset op (rsub (rget op m1) ores) m1 else m1).
+  assert (E2 : rget pool m2 = rsub (rget pool m) (if op =s pool then ores else z3)).
+  { unfold m2. destruct (negb (op =s "") && negb (rzero ores)) eqn:C.
+    - rewrite rget_aset. rewrite (seqb_sym op pool). destruct (pool =s op) eqn:E; seq.
+      + rewrite E1. reflexivity.
+      + rewrite E1, rsub_z3. reflexivity.
+    - rewrite E1. destruct (op =s pool) eqn:E; [|rewrite rsub_z3; reflexivity]. seq.
+      apply andb_false_iff in C. destruct C as [C|C].
+      + apply negb_false_iff in C. seq. congruence.
+      + apply negb_false_iff, rzero_true in C. rewrite C, rsub_z3. reflexivity. }
+  destruct (negb (np =s "") && negb (rzero nres)) eqn:C.
+  - rewrite rget_aset. rewrite (seqb_sym np pool). destruct (pool =s np) eqn:E; seq.
+    + rewrite E2. reflexivity.
+    + rewrite E2, radd_z3_r. reflexivity.
+  - rewrite E2. destruct (np =s pool) eqn:E; [|rewrite radd_z3_r; reflexivity]. seq.
+    apply andb_false_iff in C. destruct C as [C|C].
+    + apply negb_false_iff in C. seq. congruence.
+    + apply negb_false_iff, rzero_true in C. rewrite C, radd_z3_r. reflexivity.
+Qed.
+
+Lemma pool_total_adel pool X (m : amap snode) : nodupk m ->
+  pool_total pool (adel X m) = rsub (pool_total pool m) (ocontrib pool (aget X m)).
+Proof.
+  unfold nodupk. induction m as [|[k s] m IH]; intros H; [reflexivity|].
+  inversion H; subst. cbn [pool_total fold_right aget snd]. unfold adel; cbn [filter fst].
+  destruct (X =s k) eqn:E; cbn [negb].
+  - seq. fold (adel k m). rewrite IH by assumption.
+    assert (aget k m = None) as -> by (apply aget_none_notin; assumption).
+    cbn [ocontrib]. fold (pool_total pool m). match goal with |- ?g => idtac g end. res_crush.
+  - cbn [fold_right snd]. fold (adel X m). fold (pool_total pool (adel X m)). rewrite IH by assumption.
+    fold (pool_total pool m). generalize (ocontrib pool (aget X m)) (contrib pool s) (pool_total pool m).
+    intros. res_crush.
+Qed.
+
+Lemma pool_total_aset pool X s (m : amap snode) : nodupk m ->
+  pool_total pool (aset X s m) = radd (rsub (pool_total pool m) (ocontrib pool (aget X m))) (contrib pool s).
+Proof.
+  intros H. unfold aset. cbn [pool_total fold_right snd]. fold (pool_total pool (adel X m)).
+  rewrite pool_total_adel by assumption.
+  generalize (ocontrib pool (aget X m)) (contrib pool s) (pool_total pool m). intros. res_crush.
+Qed.
+
+Definition Npr (c : cache) : Prop :=
+  nodupk (nodes c) /\ forall pool, pool <> "" -> rget pool (npr c) = pool_total pool (nodes c).
+
+(* identity of a StateNode: what its pool contribution depends on *)
+Definition ident (s : snode) := (sn_node s, sn_claim s, sn_marked s).
+
+Lemma contrib_ident pool s s' : ident s = ident s' -> contrib pool s = contrib pool s'.
+Proof.
+  unfold ident. intros [= H1 H2 H3]. unfold contrib, has_identity, sn_pool, sn_res, sn_mfd, sn_deleted, sn_cap, sn_initialized.
+  rewrite H1, H2, H3. reflexivity.
+Qed.
+
+(* replacing an entry by one of the same identity *)
+Lemma Npr_same_ident c X s s' : Npr c -> aget X (nodes c) = Some s -> ident s = ident s' ->
+  Npr (with_nodes c (aset X s' (nodes c))).
+Proof.
+  intros [Hn Hp] Hs Hi. split; simpl; [apply nodupk_aset, Hn|].
+  intros pool Hpool. rewrite pool_total_aset, Hs by assumption. cbn [ocontrib].
+  rewrite (contrib_ident pool s s' Hi), (Hp pool Hpool).
+  generalize (contrib pool s') (pool_total pool (nodes c)). intros. res_crush.
+Qed.
+
+(* replacing / inserting / removing an entry together with the matching updateNodePoolResources call *)
+Lemma Npr_upr_set c X old s' : Npr c ->
+  (forall pool, ocontrib pool old = ocontrib pool (aget X (nodes c))) ->
+  Npr (with_nodes (upr_c old (Some s') c) (aset X s' (nodes c))).
+Proof.
+  intros [Hn Hp] Ho. split; simpl; [apply nodupk_aset, Hn|].
+  intros pool Hpool. rewrite upr_spec, pool_total_aset, (Hp pool Hpool), Ho by assumption. reflexivity.
+Qed.
+
+Lemma Npr_upr_del c X old : Npr c ->
+  (forall pool, ocontrib pool old = ocontrib pool (aget X (nodes c))) ->
+  Npr (with_nodes (upr_c old None c) (adel X (nodes c))).
+Proof.
+  intros [Hn Hp] Ho. split; simpl; [apply nodupk_adel, Hn|].
+  intros pool Hpool. rewrite upr_spec, pool_total_adel, (Hp pool Hpool), Ho by assumption.
+  cbn [ocontrib]. apply radd_z3_r.
 Qed.
